@@ -51,6 +51,10 @@ def single_routes(prio, pgn, src, dst, data: bytes, rng):
         "yd_R_eol": lambda: D().decode_yacht_devices_string(wire.yd_line(ident, data, "R", ts_y)),
         "actisense": lambda: D().decode_actisense_string(wire.actisense_line(prio, pgn, src, d_eff, data, ts_a)),
         "actisense_lower": lambda: D().decode_actisense_string(wire.actisense_line(prio, pgn, src, d_eff, data, ts_a, lower=True)),
+        "ebyte_bytearray": lambda: D().decode_tcp(bytearray(wire.ebyte_frame(ident, data))),
+        "usb_bytearray": lambda: D().decode_usb(bytearray(wire.usb_frame(ident, data))),
+        "actisense_eol": lambda: D().decode_actisense_string(wire.actisense_line(prio, pgn, src, d_eff, data, ts_a) + "\r\n"),
+        "plain_eol": lambda: D().decode_basic_string(wire.plain_line(prio, pgn, src, d_eff, data) + "\n"),
         "plain_dash": lambda: D().decode_basic_string(wire.plain_line(prio, pgn, src, d_eff, data, "2024-05-06-07:08:09.123")),
         "plain_iso_upper": lambda: D().decode_basic_string(wire.plain_line(prio, pgn, src, d_eff, data, "2024-05-06T07:08:09.123Z", lower=False)),
     }
